@@ -117,3 +117,29 @@ def guard_index_discharger(prog):
                     return "contains guard: %s.contains(i) was tested on the same index at %s" % (field, body.loc(t2.get("sp")))
         return None
     return discharge
+
+
+def clean_shape(prog, c):
+    """How EventLoop::clean (body c) moves MqttState::clean()'s packets into `pending`:
+    behind  = adders that put them behind the current contents of pending (pending.extend(state.clean()))
+    merged  = adders that append the old pending to a queue built from state.clean()
+    stores  = blocks storing such a queue back into the field
+    channel = adders onto pending whose source is not the state (requests drained from the channel)"""
+    CONV = [r"convert::Into<.*>>::into$", r"convert::From<.*>>::from$", r"IntoIterator>::into_iter$", r"Iterator::collect$"]
+
+    def from_state(op):
+        return any(s.kind == "call" and s.path.endswith("MqttState::clean") for s in flatten_src(provenance(c, op, through_calls=CONV)))
+
+    def pending_field(op):
+        for s in flatten_src(provenance(c, op, through_calls=[r"mem::take$", r"VecDeque::<T, A>::drain$"])):
+            f = getattr(s, "fields", None)
+            if f and f[-1].split(".")[-1] == "pending":
+                return True
+        return False
+    adders = [(bb, t) for bb, t in c.calls() if not c.is_cleanup(bb) and re.search(r"Extend<T>>::extend$|VecDeque::<T, A>::(append|extend|push_back)$", callee_path(t)) and len(t["args"]) >= 2]
+    recv_pending = lambda t: [x.split(".")[-1] for x in (receiver_fields(c, t) or [])][-1:] == ["pending"]
+    behind = [(bb, t) for bb, t in adders if recv_pending(t) and from_state(t["args"][1])]
+    merged = [(bb, t) for bb, t in adders if from_state(t["args"][0]) and pending_field(t["args"][1])]
+    stores = [bi for b_, bi, st_ in field_writes(prog, "pending") if b_.id == c.id and st_["rv"]["k"] == "use" and from_state(st_["rv"]["a"]) and not c.is_cleanup(bi)]
+    channel = [bb for bb, t in adders if recv_pending(t) and not from_state(t["args"][1])]
+    return behind, merged, stores, channel
